@@ -1359,7 +1359,10 @@ struct StallJob {
     stream_token: String,
     evs_tok: String,
     resource: String,
-    handle: std::thread::JoinHandle<HlOut>,
+    /// the job's result arrives here; waiting is bounded (`budget` from the start)
+    rx: std::sync::mpsc::Receiver<HlOut>,
+    started: Instant,
+    budget: Duration,
 }
 
 /// `st<ms>x<count>`
@@ -1378,8 +1381,9 @@ fn start_stall(sv: &mut Servers, p: &Params, client: &str) -> Option<StallJob> {
     let is_ws = client == "wsc";
     let res = resource.clone();
     let budget = Duration::from_secs(60) + Duration::from_millis(ms * count as u64);
-    let handle = std::thread::spawn(move || {
-        rt.block_on(async move {
+    let (tx_done, rx_done) = std::sync::mpsc::channel();
+    std::thread::spawn(move || {
+        let r = rt.block_on(async move {
             let consumer = move |mut reader: Box<dyn Read>| -> Result<Vec<u8>, repe::RepeError> {
                 let mut got = Vec::new();
                 for _ in 0..count {
@@ -1408,7 +1412,8 @@ fn start_stall(sv: &mut Servers, p: &Params, client: &str) -> Option<StallJob> {
                 Ok(x) => x,
                 Err(_) => HlOut::Timeout,
             }
-        })
+        });
+        let _ = tx_done.send(r);
     });
     Some(StallJob {
         p: p.clone(),
@@ -1417,30 +1422,35 @@ fn start_stall(sv: &mut Servers, p: &Params, client: &str) -> Option<StallJob> {
         evs_tok: built.evs_tok.clone(),
         built_logical: built.logical,
         resource,
-        handle,
+        rx: rx_done,
+        started: Instant::now(),
+        budget: budget + Duration::from_secs(5),
     })
 }
 
 fn finish_stall(job: StallJob, idx: &str) -> RawResult {
     let p = &job.p;
-    let puller = if job.client == "sync" { "vec" } else { "consume" };
+    let paused = p.variant.starts_with("pz");
+    let puller = if paused { "vec" } else { "consume" };
     let op = format!(
         "hl {} {} {} {} {} {} {} {} {} {} {} {}",
         idx, p.srv, job.client, puller, p.kind, p.comp, p.chunk, p.depth, job.stream_token, job.evs_tok, p.end.tok(), p.aux()
     );
-    let result = job.handle.join().unwrap_or(HlOut::Err("consumer thread panicked".into()));
+    // never wait for a call into the code under test without a bound
+    let left = job.budget.saturating_sub(job.started.elapsed());
+    let result = job.rx.recv_timeout(left).unwrap_or(HlOut::Timeout);
     unregister(&job.resource);
     let mut failures = Vec::new();
     let mut skip = false;
     let obs = match &result {
         HlOut::Bytes(b) => {
             if *b != job.built_logical {
-                if job.client == "sync" {
+                if paused {
                     failures.push((
                         "svs.hl.vec.paused_bytes_mismatch".to_string(),
                         format!(
-                            "pull_to_vec over the blocking client with a producer pausing {} reported success with {} bytes, producer emitted {}; first difference {:?}",
-                            p.variant, b.len(), job.built_logical.len(), first_diff(b, &job.built_logical)
+                            "pull_to_vec ({} client) with a producer pausing {} reported success with {} bytes, producer emitted {}; first difference {:?}",
+                            job.client, p.variant, b.len(), job.built_logical.len(), first_diff(b, &job.built_logical)
                         ),
                     ));
                 } else {
@@ -1455,7 +1465,12 @@ fn finish_stall(job: StallJob, idx: &str) -> RawResult {
             }
             if job.stream_token.starts_with("z:") { format!("{idx} ok {}", b.len()) } else { format!("{idx} ok {} {}", b.len(), fnv(b)) }
         }
-        // an error (or our own watchdog) is allowed by the property; it says nothing either way
+        HlOut::Timeout => {
+            // the property promises the bytes or an error: a call that never comes back is neither
+            failures.push(("svs.hl.call_never_returned".to_string(), format!("{} over {} ({}) did not return within {:?}", puller, job.client, p.variant, job.budget)));
+            format!("{idx} timeout")
+        }
+        // an error is allowed by the property; it says nothing either way
         _ => {
             skip = true;
             format!("{idx} err")
@@ -1715,8 +1730,25 @@ fn exec_many(sv: &mut Servers, out: &mut Out, idx: &str, srv: &str, chunk: usize
                     }
                 }
             }
-            // … then each to its end
-            for s in streams.iter_mut() {
+            // … then, in a shuffled (non-sorted) order, every fifth stream is cancelled and probed, the others pulled to their end
+            let mut order: Vec<usize> = (0..streams.len()).collect();
+            Rng::new((n * 7919 + l) as u64 | 1).shuffle(&mut order);
+            let mut cancelled: Vec<bool> = vec![false; streams.len()];
+            for &ix in &order {
+                let s = &mut streams[ix];
+                if ix % 5 == 3 {
+                    if let (Some(id), None, 0) = (s.2, &s.5, s.4) {
+                        cancelled[ix] = true;
+                        if let Err(e) = do_cancel(&mut conn, sv, id, ix % 2 == 0) {
+                            s.5 = Some(format!("cancel: {e}"));
+                            continue;
+                        }
+                        if let Pulled::Chunk { .. } = do_next(&mut conn, sv, id, &mut probs) {
+                            failures.push(("svs.many.released_not_error".into(), format!("stream {ix} of {n}: a `next` after its `cancel` returned a chunk")));
+                        }
+                    }
+                    continue;
+                }
                 if let (Some(id), None, 0) = (s.2, &s.5, s.4) {
                     for _ in 0..100_000 {
                         match do_next(&mut conn, sv, id, &mut probs) {
@@ -1735,6 +1767,12 @@ fn exec_many(sv: &mut Servers, out: &mut Out, idx: &str, srv: &str, chunk: usize
                         toks.push("err".into());
                     }
                     None if s.2.is_none() => toks.push("err".into()),
+                    None if cancelled[i] => {
+                        if !s.1.starts_with(&s.3) {
+                            failures.push(("svs.many.prefix_mismatch".into(), format!("stream {i} of {n}: bytes pulled before its cancel are not a prefix of its producer's bytes")));
+                        }
+                        toks.push("x".into());
+                    }
                     None => {
                         if s.3 != s.1 {
                             failures.push(("svs.many.concat_mismatch".into(), format!("stream {i} of {n}: pulled {} bytes, its producer emitted {}; first difference {:?}", s.3.len(), s.1.len(), first_diff(&s.3, &s.1))));
@@ -1760,27 +1798,49 @@ fn exec_many(sv: &mut Servers, out: &mut Out, idx: &str, srv: &str, chunk: usize
 // before some chunk; `pull_to_vec` over the blocking `Client` on its own thread.  One-sided: `Ok`
 // must carry exactly the producer's bytes; an `Err` is a skip.
 // ------------------------------------------------------------------------------------------
-fn start_paused(sv: &mut Servers, p: &Params) -> Option<StallJob> {
+fn start_paused(sv: &mut Servers, p: &Params, client: &str) -> Option<StallJob> {
     let built = build(p)?;
-    built.spec.pause?;
+    let (_, pause_ms) = built.spec.pause?;
     let resource = register(built.spec.clone());
     let addr = sv.addr(&p.srv, &p.kind, p.comp, p.chunk, p.depth, p.level)?;
     let res = resource.clone();
-    let handle = std::thread::spawn(move || match repe::Client::connect(addr) {
-        Err(e) => HlOut::Err(format!("connect:{e}")),
-        Ok(c) => match repe::pull_to_vec(&c, &res) {
-            Ok(b) => HlOut::Bytes(b),
-            Err(e) => HlOut::Err(err_class(&e)),
-        },
+    let (tx_done, rx_done) = std::sync::mpsc::channel();
+    let rt = sv.rt.handle().clone();
+    let cl = client.to_string();
+    std::thread::spawn(move || {
+        let r = match cl.as_str() {
+            "sync" => match repe::Client::connect(addr) {
+                Err(e) => HlOut::Err(format!("connect:{e}")),
+                Ok(c) => match repe::pull_to_vec(&c, &res) {
+                    Ok(b) => HlOut::Bytes(b),
+                    Err(e) => HlOut::Err(err_class(&e)),
+                },
+            },
+            "async" => rt.block_on(async {
+                match repe::AsyncClient::connect(addr).await {
+                    Err(e) => HlOut::Err(format!("connect:{e}")),
+                    Ok(c) => repe::pull_to_vec_async(&c, &res).await.map(HlOut::Bytes).unwrap_or_else(|e| HlOut::Err(err_class(&e))),
+                }
+            }),
+            _ => rt.block_on(async {
+                match repe::WebSocketClient::connect(&format!("ws://{}/repe", addr)).await {
+                    Err(e) => HlOut::Err(format!("connect:{e}")),
+                    Ok(c) => repe::pull_to_vec_async(&c, &res).await.map(HlOut::Bytes).unwrap_or_else(|e| HlOut::Err(err_class(&e))),
+                }
+            }),
+        };
+        let _ = tx_done.send(r);
     });
     Some(StallJob {
         p: p.clone(),
-        client: "sync".to_string(),
+        client: client.to_string(),
         stream_token: stream_tok(&built.logical, built.is_pattern),
         evs_tok: built.evs_tok.clone(),
         built_logical: built.logical,
         resource,
-        handle,
+        rx: rx_done,
+        started: Instant::now(),
+        budget: Duration::from_millis(pause_ms) * 3 + Duration::from_secs(45),
     })
 }
 
@@ -2046,6 +2106,61 @@ fn exec_hl(sv: &mut Servers, out: &mut Out, idx: &str, p: &Params, client: &str,
 }
 
 // ------------------------------------------------------------------------------------------
+// entry points of the anchored file, mechanically
+// ------------------------------------------------------------------------------------------
+/// `pub fn` / `pub async fn` / trait methods of `value_stream.rs` this family calls (directly, by name).
+const DRIVEN: [&str; 19] = [
+    "with_value_stream", "with_typed_value_stream", "with_complex_value_stream", "with_reader_stream", "with_writer_stream",
+    "pull_value", "pull_to_vec", "pull_consume", "pull_to_file", "pull_typed_slice", "pull_complex_slice",
+    "pull_value_async", "pull_typed_slice_async", "pull_complex_slice_async", "pull_consume_async", "pull_to_file_async", "pull_to_vec_async",
+    "svs_call", "svs_notify",
+];
+/// … and the ones it does not, with the reason.
+const NOT_DRIVEN: [(&str, &str); 6] = [
+    ("pull_stream", "reached through pull_value (StreamOutput::Value) and pull_to_file (RawFile); its file outputs are C10's family `commit`"),
+    ("pull_to_beve_zst_file", "commit protocol: C10's family"),
+    ("pull_to_beve_file", "commit protocol: C10's family"),
+    ("pull_to_file_trailer_verified", "commit protocol + TrailerHold: C10's family"),
+    ("pull_to_file_verified_async", "commit protocol: C10's family"),
+    ("pull_to_file_trailer_verified_async", "commit protocol + TrailerHold: C10's family"),
+];
+
+fn entry_point_audit(out: &mut Out) -> Vec<String> {
+    let repo = std::env::var("VERIF_REPO").unwrap_or_else(|_| "/repo".into());
+    let text = std::fs::read_to_string(std::path::Path::new(&repo).join("src").join("value_stream.rs")).unwrap_or_default();
+    let text = text.split("#[cfg(test)]").next().unwrap_or("").to_string();
+    let mut names: Vec<String> = Vec::new();
+    let mut in_pub_trait = false;
+    for line in text.lines() {
+        let t = line.trim_start();
+        if t.starts_with("pub trait ") { in_pub_trait = true; }
+        if line.starts_with('}') { in_pub_trait = false; }
+        let mut pres: Vec<&str> = vec!["pub async fn ", "pub fn "];
+        if in_pub_trait { pres.extend(["async fn ", "fn "]); }
+        for pre in pres {
+            if let Some(rest) = t.strip_prefix(pre) {
+                let name: String = rest.chars().take_while(|c| c.is_alphanumeric() || *c == '_').collect();
+                if !name.is_empty() && !names.contains(&name) { names.push(name); }
+            }
+        }
+    }
+    let mut missing = Vec::new();
+    for n in &names {
+        if !DRIVEN.contains(&n.as_str()) && !NOT_DRIVEN.iter().any(|(k, _)| k == n) {
+            out.count(&format!("svs.NOT_DRIVEN.{n}"));
+            missing.push(n.clone());
+        }
+    }
+    out.extra.insert("entry_points".into(), serde_json::json!({"found": names, "not_driven": missing,
+        "not_driven_because": NOT_DRIVEN.iter().map(|(k, v)| format!("{k}: {v}")).collect::<Vec<_>>() }));
+    out.extra.insert("not_driven".into(), serde_json::json!(missing));
+    if !missing.is_empty() {
+        eprintln!("svs: public entry points of value_stream.rs NOT DRIVEN by this family: {:?}", missing);
+    }
+    missing
+}
+
+// ------------------------------------------------------------------------------------------
 // running an op (fresh or replayed) and bookkeeping
 // ------------------------------------------------------------------------------------------
 fn params_from_raw(w: &[&str]) -> Option<(Params, String)> {
@@ -2149,10 +2264,10 @@ impl Runner {
         }
         j
     }
-    fn paused_start(&mut self, p: &Params) -> Option<StallJob> {
+    fn paused_start(&mut self, p: &Params, client: &str) -> Option<StallJob> {
         self.count(p, "paused");
-        self.out.count(&format!("svs.hl.sync.vec.{}", p.variant));
-        let j = start_paused(&mut self.sv, p);
+        self.out.count(&format!("svs.hl.{client}.vec.{}", p.variant));
+        let j = start_paused(&mut self.sv, p, client);
         if j.is_none() {
             self.out.count("svs.generator.unbuildable");
         }
@@ -2316,6 +2431,12 @@ fn main() {
     quiet_panics();
     let mut run = Runner { sv: Servers::new(), out: Out::new(&args.out), n: 0, timeouts: 0, recent: HashMap::new(), deadline: if args.out.to_string_lossy().ends_with("-search") { Some(Instant::now() + Duration::from_secs(150)) } else { None } };
     run.out.rule = "real Server (tcp) and WebSocketServer (ws), every producer kind (value: unit/string/struct; typed u8/f64; complex f32; reader with 1..100000-byte reads, Interrupted reads; writer with random write/flush scripts), chunk sizes {1,2,3,7,64,4096,1MiB}, payload lengths k*chunk-1,k*chunk,k*chunk+1 for k=0..4 plus random, depths 0..8, zstd on/off (for zstd the compressed stream is recorded from a separate pull of the same resource), slow producer / slow consumer, failure (Err and panic) injected at k*chunk-1,k*chunk,k*chunk+1 written bytes, scripts of next/cancel (request and notify)/next-past-the-end; then pull_to_vec, pull_value, pull_typed_slice, pull_complex_slice and their async forms over Client, AsyncClient and WebSocketClient. Distinct by op line without its index; non-trivial = at least two pulls or three script steps (raw), payload longer than one chunk or failing producer (hl)".into();
+    if std::env::args().any(|a| a == "--check-entry-points") {
+        let missing = entry_point_audit(&mut run.out);
+        println!("value_stream.rs entry points not driven by the svs family: {:?}", missing);
+        std::process::exit(if missing.is_empty() { 0 } else { 1 });
+    }
+    entry_point_audit(&mut run.out);
     if let Some(ops) = args.replay_ops() {
         for l in ops {
             let w = words(&l);
@@ -2324,8 +2445,8 @@ fn main() {
                 Some("hl") => if let Some((p, client, puller)) = params_from_hl(&w) {
                     if puller == "consume" {
                         if let Some(j) = run.stall_start(&p, &client) { run.stall_finish(j); }
-                    } else if client == "sync" && puller == "vec" && p.variant.starts_with("pz") {
-                        if let Some(j) = run.paused_start(&p) { run.stall_finish(j); }
+                    } else if puller == "vec" && p.variant.starts_with("pz") {
+                        if let Some(j) = run.paused_start(&p, &client) { run.stall_finish(j); }
                     } else {
                         run.hl(&p, &client, &puller);
                     }
@@ -2361,7 +2482,8 @@ fn main() {
     // (S) stalled consumers on the async / WebSocket pullers, on their own threads for the whole run
     let mut stall_jobs: Vec<StallJob> = Vec::new();
     {
-        let mut specs: Vec<(&str, &str, u8, &str)> = vec![("tcp", "async", 0, "st2800x1"), ("ws", "wsc", 0, "st2800x1"), ("tcp", "async", 0, "st700x4"), ("ws", "wsc", 0, "st700x4")];
+        let mut specs: Vec<(&str, &str, u8, &str)> = vec![("tcp", "async", 0, "st2800x1"), ("ws", "wsc", 0, "st2800x1"), ("tcp", "async", 0, "st700x4"), ("ws", "wsc", 0, "st700x4"),
+            ("tcp", "async", 0, "st300x3"), ("ws", "wsc", 0, "st600x2"), ("tcp", "async", 0, "st1100x2"), ("ws", "wsc", 0, "st1100x1")];
         if thorough {
             specs.extend([("tcp", "async", 0, "st6000x1"), ("ws", "wsc", 0, "st6000x1"), ("tcp", "async", 0, "st12000x1"), ("ws", "wsc", 0, "st12000x1"),
                           ("tcp", "async", 1, "st2800x1"), ("ws", "wsc", 1, "st6000x1"), ("tcp", "async", 0, "st2300x3"), ("ws", "wsc", 0, "st2300x3")]);
@@ -2378,16 +2500,18 @@ fn main() {
 
     // (P) paused producers for the blocking puller, on their own threads (joined at the end)
     {
-        let pauses: Vec<(u64, bool)> = if thorough { vec![(6500, true), (6500, false), (12000, false), (30000, true)] } else { vec![(6500, true), (6500, false)] };
-        for (ms, head) in pauses {
+        let mut pauses: Vec<(u64, bool, &str)> = vec![(6500, true, "sync"), (6500, false, "sync"), (300, false, "sync"), (600, true, "async"), (1100, false, "wsc"),
+            (300, true, "wsc"), (600, false, "sync"), (1100, true, "async"), (6500, false, "async"), (6500, true, "wsc")];
+        if thorough { pauses.extend([(12000, false, "sync"), (30000, true, "sync"), (2500, false, "async"), (5500, true, "wsc"), (11000, false, "async"), (2500, true, "sync"), (5500, false, "sync"), (11000, true, "wsc")]); }
+        for (ms, head, client) in pauses {
             rot += 1;
             let chunk = *r.pick(&[256usize, 1024]);
-            let mut p = base("tcp", "writer:0", 0, chunk, rot % 9);
+            let mut p = base(if client == "wsc" { "ws" } else { "tcp" }, "writer:0", 0, chunk, rot % 9);
             let nchunks = 10 + r.below(8) as usize;
             p.evs = (0..nchunks).map(|_| Ev::W(chunk)).chain(std::iter::once(Ev::W(1 + r.below(chunk as u64 - 1) as usize))).collect();
             let at = if head { 0 } else { nchunks / 2 };
             p.variant = format!("pz{ms}at{at}");
-            if let Some(j) = run.paused_start(&p) { stall_jobs.push(j); }
+            if let Some(j) = run.paused_start(&p, client) { stall_jobs.push(j); }
         }
     }
     // (A) boundary grid, uncompressed: every chunk size x k=0..4 x {-1,0,+1}
